@@ -1347,3 +1347,16 @@ m('T10-is-namedtuple-bound-to-the-instance-form', 'C18', 'T10', '_C.is_namedtupl
              &IsNamedTuple,""",
   """        .def("is_namedtuple",
              &IsNamedTupleInstance,""")
+m('F8-entry-eq-leaves-kind-out-on-one-side', 'C04', 'F8', 'accessor.PyTreeEntry/eq-symmetric', 'optree/accessor.py',
+  """                other.entry,
+                other.type,
+                other.kind,""",
+  """                other.entry,
+                other.type,""")
+m('N6-entry-plus-accessor-puts-the-entry-last', 'C04', 'N6', 'PyTreeEntry.__add__/accessor', 'optree/accessor.py',
+  """        if isinstance(other, PyTreeAccessor):
+            return PyTreeAccessor((self, *other))
+        return NotImplemented""",
+  """        if isinstance(other, PyTreeAccessor):
+            return PyTreeAccessor((*other, self))
+        return NotImplemented""")
